@@ -30,6 +30,29 @@ def unalias(dt):
     return dt
 
 
+def concrete_leaf(dt, raw=False):
+    """a fixed valid value for a primitive type (used when leaves are not the subject)"""
+    if is_integer_type(dt):
+        lo = dt.minimum if dt.min_value is None else dt.min_value
+        hi = dt.maximum if dt.max_value is None else dt.max_value
+        return lo if lo > 0 else (hi if hi < 0 else 0)
+    if is_float_type(dt):
+        lo, hi = dt.min_value, dt.max_value
+        return lo if (lo is not None and lo > 0) else (hi if (hi is not None and hi < 0) else 0)
+    if is_boolean_type(dt):
+        return True
+    if is_string_type(dt):
+        if dt.pattern:
+            return STRING_SAMPLES[dt.pattern]
+        return 'a' * (dt.min_length or 0)
+    if is_bytes_type(dt):
+        return b'\x00\xff' if raw else B64_CHOICES[1]
+    if is_timestamp_type(dt):
+        return __import__('datetime').datetime(2015, 5, 12, 15, 50, 38) if raw else TS_CHOICES[0]
+    return NotImplemented
+
+
+
 class ConstPool:
     """every choice is the fixed one: optional keys present, values non-null, last tag, no mutation"""
 
@@ -132,25 +155,7 @@ class DocGen:
         raise Skip('unsupported type')
 
     def concrete_leaf(self, dt):
-        """a fixed valid value for a primitive type (used when leaves are not the subject)"""
-        if is_integer_type(dt):
-            lo = dt.minimum if dt.min_value is None else dt.min_value
-            hi = dt.maximum if dt.max_value is None else dt.max_value
-            return lo if lo > 0 else (hi if hi < 0 else 0)
-        if is_float_type(dt):
-            lo, hi = dt.min_value, dt.max_value
-            return lo if (lo is not None and lo > 0) else (hi if (hi is not None and hi < 0) else 0)
-        if is_boolean_type(dt):
-            return True
-        if is_string_type(dt):
-            if dt.pattern:
-                return STRING_SAMPLES[dt.pattern]
-            return 'a' * (dt.min_length or 0)
-        if is_bytes_type(dt):
-            return B64_CHOICES[1]
-        if is_timestamp_type(dt):
-            return TS_CHOICES[0]
-        return NotImplemented
+        return concrete_leaf(dt)
 
     def gen_struct(self, dt, depth, out=None, top=False):
         p = self.p
